@@ -412,4 +412,19 @@ def run(ctx, chk):
     _cbc = _Ob.PathCache(prog, eff)
     _Nb = _Ob.Nullness(prog, eff, _cbc)
     _cb(chk, "C19.balance", prog, eff, _cbc, _Nb, _Ob.Balance(prog, eff, _cbc, _Nb), _tb.constructors(prog, eff), floor=60)
+    chk.rule("C19.narrowing", "no 64-bit quantity is converted to a narrower integer type except to take one byte of it or below a range test that makes "
+             "the conversion lossless (the depth is compared at its full width; shared with C02.narrowing)")
+    import rules as _rnw2
+    _rnw2.check_narrowing(chk, "C19.narrowing", prog, eff=eff)
+    chk.rule("C19.no-silent-drop", "every opener becomes a frame of the decoding stack (or an item handed to its parent) or stops the load: a head that "
+             "is absorbed without a frame is a level the limit never counts (shared with C05.no-silent-drop)")
+    from props.c05 import check_no_silent_drop as _nsd19
+    _nsd19(chk, "C19.no-silent-drop", prog, eff)
+    chk.rule("C19.break", "a break closes the open indefinite item whenever the stack is non-empty, at every depth (shared with C02.break)")
+    import typestate as _ts19b
+    import ownership as _O19b
+    from props.c02 import check_break as _cb19, wired_builders as _wb19
+    _H19b, _PA19b, _IF19b, _x19b = ctx.typestate()
+    _c19b = _O19b.PathCache(prog, eff)
+    _cb19(chk, "C19.break", prog, _c19b, _ts19b.CallSites(prog, eff, _c19b, _H19b, _PA19b), _PA19b, _wb19(prog)["indef_break"])
     chk.exhaustive = True
